@@ -527,4 +527,193 @@ theorem mGcStep_spec (m : MddMgr) (ext : Nat → Nat) (hc : MInvCore m) (hx : Re
                               simp only [Option.map_some, Option.some.injEq]
                               omega
 
+/-! ### the worklist loop and `collect_garbage` -/
+
+/-- relation between the managers before and after (part of) a collection -/
+structure GcRel (m m' : MddMgr) (ext : Nat → Nat) : Prop where
+  core : MInvCore m'
+  exact : RefExact m' ext
+  max : m'.max = m.max
+  sub : MExt m'.tbl m.tbl
+  held : ∀ x n, m.tbl.node? x = some n → 0 < ext x → m'.tbl.node? x = some n
+
+theorem mGcLoop_spec (ext : Nat → Nat) : ∀ (f : Nat) (work : List Int) (m m' : MddMgr),
+    MInvCore m → RefExact m ext → mGcLoop f work m = (.ok (), m') →
+    GcRel m m' ext ∧
+    ((∀ x n, m.tbl.node? x = some n → m.ref[x]? = some 0 → ((x : Nat) : Int) ∈ work) →
+      ∀ x n, m'.tbl.node? x = some n → m'.ref[x]? ≠ some 0) := by
+  intro f
+  induction f with
+  | zero =>
+    intro work m m' hc hx hr
+    cases work with
+    | nil =>
+      simp only [mGcLoop, Prod.mk.injEq, true_and] at hr
+      subst hr
+      refine ⟨⟨hc, hx, rfl, MExt.refl _, fun _ _ h _ => h⟩, ?_⟩
+      intro hW x n hn h0
+      have := hW x n hn h0
+      simp at this
+    | cons u rest => simp [mGcLoop] at hr
+  | succ f ih =>
+    intro work m m' hc hx hr
+    cases work with
+    | nil =>
+      simp only [mGcLoop, Prod.mk.injEq, true_and] at hr
+      subst hr
+      refine ⟨⟨hc, hx, rfl, MExt.refl _, fun _ _ h _ => h⟩, ?_⟩
+      intro hW x n hn h0
+      have := hW x n hn h0
+      simp at this
+    | cons u rest =>
+      simp only [mGcLoop] at hr
+      split at hr
+      · simp at hr
+      · next work1 m1 hstep =>
+        obtain ⟨p, np, hup, hnode, hext0, hc1, hx1, hmax1, htbl1, hrefx, hkeep, hadded⟩ :=
+          mGcStep_spec m ext hc hx u rest work1 m1 hstep
+        obtain ⟨G, hWimp⟩ := ih work1 m1 m' hc1 hx1 hr
+        have hsub1 : MExt m1.tbl m.tbl := by rw [htbl1]; exact m.tbl.delNode_sub p
+        refine ⟨⟨G.core, G.exact, G.max.trans hmax1, G.sub.trans hsub1, ?_⟩, ?_⟩
+        · intro x n hn hpos
+          apply G.held x n _ hpos
+          rw [htbl1, MTbl.node?_delNode]
+          have : p ≠ x := by intro e; subst e; omega
+          simp [this, hn]
+        · intro hW
+          apply hWimp
+          intro x n hn h0
+          have hxp : x ≠ p := by
+            intro e; subst e
+            rw [htbl1, MTbl.node?_delNode] at hn; simp at hn
+          have hn0 : m.tbl.node? x = some n := hsub1.nodes x n hn
+          rw [hrefx x hxp] at h0
+          cases hv : m.ref[x]? with
+          | none => rw [hv] at h0; cases h0
+          | some v =>
+            rw [hv] at h0
+            simp only [Option.map_some, Option.some.injEq] at h0
+            by_cases hv0 : v = 0
+            · subst hv0
+              have := hW x n hn0 hv
+              rw [List.mem_cons] at this
+              rcases this with e | hin
+              · exfalso
+                rw [hup] at e
+                exact hxp (by omega)
+              · exact hkeep _ hin
+            · have hpos : 0 < cntInto np.kids x := by omega
+              obtain ⟨k, hk, habs⟩ := cntInto_pos_iff.mp hpos
+              have hx2 : 2 ≤ x := hc.wf.ge_two _ _ hn0
+              have := hadded k hk (by omega) (by
+                rw [habs, hrefx x hxp, hv]
+                simp only [Option.map_some, Option.some.injEq]
+                omega)
+              rw [habs] at this
+              exact this
+
+theorem mUnusedOf_spec : ∀ (rs : List Int) (m : MddMgr) (r : List Int) (m1 : MddMgr),
+    mUnusedOf rs m = (.ok r, m1) →
+    m1 = m ∧ ∀ y, y ∈ rs → m.ref[y.natAbs]? = some 0 → y ∈ r := by
+  intro rs
+  induction rs with
+  | nil =>
+    intro m r m1 hr
+    simp only [mUnusedOf, Prod.mk.injEq, Except.ok.injEq] at hr
+    exact ⟨hr.2.symm, fun y hy => by simp at hy⟩
+  | cons u rest ih =>
+    intro m r m1 hr
+    unfold mUnusedOf at hr
+    split at hr
+    · simp at hr
+    · next c hc =>
+      split at hr
+      · simp at hr
+      · next r' m1' hrest =>
+        obtain ⟨hm, hall⟩ := ih m r' m1' hrest
+        subst hm
+        split at hr
+        · next hc0 =>
+          simp only [Prod.mk.injEq, Except.ok.injEq] at hr
+          obtain ⟨hr1, hm1⟩ := hr
+          subst hr1 hm1
+          refine ⟨rfl, ?_⟩
+          intro y hy h0
+          rcases List.mem_cons.mp hy with rfl | hy
+          · split
+            · next hin => simpa using hin
+            · simp
+          · have := hall y hy h0
+            split
+            · exact this
+            · exact List.mem_cons_of_mem _ this
+        · next hc0 =>
+          simp only [Prod.mk.injEq, Except.ok.injEq] at hr
+          obtain ⟨hr1, hm1⟩ := hr
+          subst hr1 hm1
+          refine ⟨rfl, ?_⟩
+          intro y hy h0
+          rcases List.mem_cons.mp hy with rfl | hy
+          · rw [hc] at h0
+            simp only [Option.some.injEq] at h0
+            exact absurd h0 hc0
+          · exact hall y hy h0
+
+/-- what `collect_garbage` promises -/
+structure GcOK (m : MddMgr) (ext : Nat → Nat) (full : Bool) (m' : MddMgr) : Prop where
+  inv : MInv m'
+  exact : RefExact m' ext
+  /-- nothing is created or changed: the remaining nodes are old nodes -/
+  sub : MExt m'.tbl m.tbl
+  /-- nodes the user holds survive -/
+  held : ∀ x n, m.tbl.node? x = some n → 0 < ext x → m'.tbl.node? x = some n
+  /-- after a full collection every remaining node is referenced -/
+  live : full = true → ∀ x n, m'.tbl.node? x = some n → ∃ c, m'.ref[x]? = some c ∧ 0 < c
+  /-- surviving references keep their meaning -/
+  den : ∀ u, m'.tbl.Mem u → ∀ a, denM m'.tbl u a = denM m.tbl u a
+  cache : m'.cache = {}
+
+theorem mddGc_spec (m : MddMgr) (ext : Nat → Nat) (h : MInv m) (hx : RefExact m ext)
+    (roots : Option (List Int)) (m' : MddMgr) (hr : mCollectGarbage roots m = (.ok (), m')) :
+    GcOK m ext roots.isNone m' := by
+  unfold mCollectGarbage at hr
+  dsimp only at hr
+  split at hr
+  · simp at hr
+  · next unused m1 hun =>
+    obtain ⟨hm1, hall⟩ := mUnusedOf_spec _ m unused m1 hun
+    subst hm1
+    split at hr
+    · simp at hr
+    · next m2 hloop =>
+      simp only [Prod.mk.injEq, true_and] at hr
+      subst hr
+      obtain ⟨G, hWimp⟩ := mGcLoop_spec ext _ _ m1 m2 h.core hx hloop
+      have hinv : MInv { m2 with cache := {} } := G.core.withEmptyCache
+      refine ⟨hinv, ⟨fun u hu => G.exact.cnt u hu⟩, G.sub, G.held, ?_, ?_, rfl⟩
+      · intro hfull x n hn
+        have hroots : roots = none := by cases roots <;> simp at hfull <;> rfl
+        subst hroots
+        have hne := hWimp (by
+          intro x n hn h0
+          have hx2 : 2 ≤ x := h.wf.ge_two _ _ hn
+          have hin : ((x : Nat) : Int) ∈ unused := by
+            apply hall
+            · rw [List.mem_map]
+              refine ⟨x, ?_, rfl⟩
+              rw [TreeMap.mem_keys, TreeMap.mem_iff_contains]
+              exact h.refDom _ _ hn
+            · simpa using h0
+          have hne1 : ((x : Nat) : Int) ≠ 1 := by omega
+          exact (List.mem_erase_of_ne hne1).mpr hin) x n hn
+        have hdom := (natmap_contains_iff m2.ref x).mp (G.core.refDom x n hn)
+        cases hv : m2.ref[x]? with
+        | none => rw [hv] at hdom; cases hdom
+        | some c =>
+          refine ⟨c, (by first | exact hv | rfl), ?_⟩
+          have : c ≠ 0 := fun e => hne (by rw [hv, e])
+          omega
+      · intro u hu a
+        exact (denM_ext G.sub G.core.wf.toMWF u a hu).symm
+
 end DD
